@@ -27,7 +27,7 @@ WORKLOADS = {
 
 def run(ctx, prop, ps, gen_bad):
     fails, cov = [], {}
-    tot = dict(sequences=0, steps=0, cut=0, hist={}, nontrivial=0, foreign=[])
+    tot = dict(sequences=0, steps=0, cut=0, hist={}, nontrivial=0, foreign=[], unreproduced=[])
     samples = []
     # corpus first
     for name, hdr, ops in seqengine.load_corpus(prop):
@@ -46,6 +46,7 @@ def run(ctx, prop, ps, gen_bad):
         tot['steps'] += st['steps']
         tot['cut'] += st['cut_short']
         tot['nontrivial'] += len(st['nontrivial'])
+        tot['unreproduced'] += st.get('unreproduced', [])
         for a, b in st['hist'].items():
             tot['hist'][a] = tot['hist'].get(a, 0) + b
         for f in fs:
@@ -67,6 +68,7 @@ def run(ctx, prop, ps, gen_bad):
                     'wf_disk = [], in-memory allocators = on-disk bitmaps); non-trivial = distinct (sequence, step) whose call was executed and agreed',
                samples=samples, sequences=tot['sequences'], sequences_cut_short=tot['cut'], op_histogram=tot['hist'],
                status_histogram=errkinds, failures_owned_by_other_properties=tot['foreign'][:10],
+               unreproduced_observations=tot['unreproduced'][:10],
                traces_validated_against_impl=tot['sequences'])
     return fails, cov
 
